@@ -66,7 +66,7 @@ class Parser(object):
         self.toks = tokenize(text)
         self.i = 0
         self.dialect = dialect
-        self.pow = '^' if dialect == 'sbml' else '**'
+        self.pow = '^' if dialect in ('sbml', 'sbml-l1') else '**'
 
     def peek(self):
         return self.toks[self.i] if self.i < len(self.toks) else (None, None)
@@ -93,12 +93,32 @@ class Parser(object):
         return e
 
     def multiplicative(self):
-        e = self.unary()
+        nxt = self.power_l1 if self.dialect == 'sbml-l1' else self.unary
+        e = nxt()
         while self.peek() in (('op', '*'), ('op', '/')):
             op = self.take()[1]
-            r = self.unary()
+            r = nxt()
             e = FNode(op, (e, r))
         return e
+
+    # legacy Level-1 infix grammar (libsbml SBML_parseFormula, used by setFormula): unary minus binds tighter than ^, and ^ is
+    # left-associative
+    def power_l1(self):
+        e = self.unary_l1()
+        while self.peek() == ('op', '^'):
+            self.take()
+            r = self.unary_l1()
+            e = FNode('^', (e, r))
+        return e
+
+    def unary_l1(self):
+        if self.peek() == ('op', '-'):
+            self.take()
+            return FNode('neg', (self.unary_l1(),))
+        if self.peek() == ('op', '+'):
+            self.take()
+            return self.unary_l1()
+        return self.atom()
 
     def unary(self):
         if self.peek() == ('op', '-'):
@@ -111,7 +131,7 @@ class Parser(object):
 
     def power(self):
         b = self.atom()
-        if self.peek() == ('op', self.pow):
+        if self.peek() == ('op', self.pow) or (self.dialect == 'python' and self.peek() == ('op', '^')):      # sympify converts ^ to ** (convert_xor)
             self.take()
             # right-associative; the exponent may carry its own unary minus (a^-1)
             if self.peek() == ('op', '-'):
@@ -178,7 +198,7 @@ def to_text(n, dialect='sbml'):
     a, b = n.args
     if k == '^':
         op = '^' if dialect == 'sbml' else '**'
-        return grp(a, PREC[a.kind] <= PREC['^']) + op + grp(b, PREC[b.kind] < PREC['neg'] or b.kind == '^')
+        return grp(a, PREC[a.kind] < PREC['^']) + op + grp(b, PREC[b.kind] < PREC['neg'] or b.kind == '^')      # as the installed libsbml prints: (a^b)^c comes out as a^b^c
     return '%s %s %s' % (grp(a, PREC[a.kind] < PREC[k]), k, grp(b, PREC[b.kind] <= PREC[k]))
 
 
